@@ -64,6 +64,18 @@ def templates():
         ('wrong-arity-inside-label-counted-rep', 'la:\n;\nlb:\ndef two x, y {\n;x\n}\ndef body {\ntwo 1\n}\nrep((lb-la)/(2*w), i) body\n', True, 'two'),
         ('duplicate-label-inside-label-counted-rep', 'la:\n;\n;\nlb:\ndef body {\nduplab:\n;\n}\nrep((lb-la)/(2*w), i) body\n', True, 'duplab'),
         ('recursion-inside-label-counted-rep', 'la:\n;\nlb:\ndef recin {\nrecin\n}\ndef body {\nrecin\n}\nrep((lb-la)/(2*w), i) body\n', True, 'recin'),
+        ('chain-of-850-macros', ''.join(f'def c{k} {{\nc{k + 1}\n}}\n' for k in range(850)) + 'def c850 {\n;\n}\nc0\n', False, None),
+        ('chain-of-899-macros', ''.join(f'def c{k} {{\nc{k + 1}\n}}\n' for k in range(899)) + 'def c899 {\n;\n}\nc0\n', False, None),
+        ('chain-of-901-macros', ''.join(f'def c{k} {{\nc{k + 1}\n}}\n' for k in range(901)) + 'def c901 {\n;\n}\nc0\n', True, 'depth'),
+        ('guarded-recursion-850-deep', 'def d n {\nrep(n>0, i) d n-1\n}\nd 850\n;\n', False, None),
+        ('guarded-recursion-899-deep', 'def d n {\nrep(n>0, i) d n-1\n}\nd 899\n;\n', False, None),
+        ('guarded-recursion-905-deep', 'def d n {\nrep(n>0, i) d n-1\n}\nd 905\n;\n', True, 'depth'),
+        ('duplicate-extern-label-by-two-expansions', 'def m > dupx {\ndupx:\n;\n}\nm\nm\n', True, 'dupx'),
+        ('duplicate-label-through-a-parameter', 'def m lbl {\nlbl:\n;\n}\nm spot\nm spot\n', True, 'spot'),
+        ('duplicate-label-through-a-parameter-in-rep', 'def m lbl {\nlbl:\n;\n}\nrep(2, i) m spot\n', True, 'spot'),
+        ('duplicate-local-label-in-one-macro', 'def m @ loc {\nloc:\n;loc\nloc:\n;\n}\nm\n', True, 'loc'),
+        ('duplicate-local-label-through-a-callee', 'def decl l {\nl:\n;\n}\ndef m @ loc {\nloc:\n;loc\ndecl loc\n}\nm\n', True, 'loc'),
+        ('user-label-named-like-the-wflip-area-label', ';\nsegment 64*w\nns _ {\nwflip_area_start_0:\n;\n}\n', None, None),
         ('macro-recursion-through-rep', 'def recrep {\nrep(1, i) recrep\n}\nrecrep\n', True, 'recrep'),
         ('macro-recursion-through-rep-with-arg', 'def recarg x {\nrep(2, i) recarg x+i\n}\nrecarg 0\n', True, 'recarg'),
         ('macro-mutual-recursion-through-rep', 'def ma {\nmb\n}\ndef mb {\nrep(1, i) ma\n}\nma\n', True, None),
@@ -300,6 +312,8 @@ def judge(res, case, must_fail, needle, sieve, stats):
         bad('raw python exception', 'a specific FlipJumpException', f"{res['exc']}: {res['msg'][:100]}", 'raw ' + str(res['exc']))
     elif o == 'hang':
         bad('assembly did not finish', 'finishes', 'still running after 30 s', 'hang')
+    elif o == 'diagnostic' and must_fail is False:
+        bad('valid program rejected', 'assembles', res['msg'][:200], 'valid rejected ' + str(case.get('name', '')).split('@')[0])
     elif o == 'success' and must_fail:
         bad('erroneous program assembled', 'a diagnostic', 'success', 'accepted ' + str(case.get('name', '')).split('@')[0])
     elif o == 'diagnostic' and needle and needle not in res['msg']:
